@@ -46,12 +46,19 @@ def evaluate(prop, cases, stats):
     for c in cases:
         try:
             impl_outs.append(prop.run_impl(c))
-        except Exception as e:   # the harness's own failure, not the implementation's
-            raise RuntimeError(f"harness failure in run_impl on {c!r}: {e!r}") from e
+        except Exception as e:   # the implementation behaved in a way the runner cannot even record
+            impl_outs.append({"runner_exception": f"{type(e).__name__}: {e}"})
     reqs = []
     spans = []
-    for c in cases:
-        r = prop.request(c)
+    for c, io in zip(cases, impl_outs):
+        if isinstance(io, dict) and "runner_exception" in io:
+            spans.append((len(reqs), len(reqs)))
+            continue
+        try:
+            r = prop.request(c)
+        except Exception as e:  # noqa
+            io["runner_exception"] = f"request: {type(e).__name__}: {e}"
+            r = []
         if r is None:
             r = []
         if isinstance(r, str):
@@ -62,16 +69,29 @@ def evaluate(prop, cases, stats):
     records, disagreements, oracle_fail = [], [], []
     for c, io, (a, b) in zip(cases, impl_outs, spans):
         mo = answers[a:b]
-        d = prop.compare(c, io, mo)
-        o = prop.oracle(c, io)
+        if isinstance(io, dict) and "runner_exception" in io:
+            d, o = f"the implementation could not be run / recorded: {io['runner_exception']}", None
+        else:
+            try:
+                d = prop.compare(c, io, mo)
+            except Exception as e:  # noqa
+                d = f"comparison with the model failed on the implementation's output: {type(e).__name__}: {e}"
+            try:
+                o = prop.oracle(c, io)
+            except Exception as e:  # noqa
+                o = None
+                d = d or f"the property oracle could not evaluate the implementation's output: {type(e).__name__}: {e}"
         rec = {"case": c, "impl": io, "model": mo}
         records.append(rec)
         if d:
             disagreements.append({**rec, "disagreement": d})
         if o:
             oracle_fail.append({**rec, "violation": o})
-        for t in prop.tags(c, io, mo):
-            stats.hit(t)
+        try:
+            for t in prop.tags(c, io, mo):
+                stats.hit(t)
+        except Exception:  # noqa
+            stats.hit("untaggable")
     return records, disagreements, oracle_fail
 
 
@@ -183,27 +203,66 @@ def run(pid, tier, seed, args, t0):
             audit_bad.append("forbidden tokens: " + "; ".join(bad_tokens[:10]))
     if audit_bad:
         broken.append("audit: " + " | ".join(audit_bad[:10]))
+    leanchecker = "not run (quick tier)"
+    if build_ok and tier == "thorough":
+        # independent re-check of the compiled .olean files by the toolchain's external checker
+        import subprocess
+        p = subprocess.run(["lake", "env", "leanchecker", *modules], cwd=core.LEAN, capture_output=True, text=True, timeout=3000)
+        leanchecker = "ok" if p.returncode == 0 else f"FAILED: {(p.stdout + p.stderr)[-300:]}"
+        if p.returncode != 0:
+            broken.append("leanchecker: " + leanchecker)
 
     # --- 5. correspondence + oracle on every case ---------------------------------------------------
     rng = Rng(f"{pid}-{seed}-{tier}")
-    cases = list(corpus_cases) + list(prop.cases(rng, tier))
-    records, dis, fails = ([], [], [])
+    import hashlib
+    import itertools
+    records, dis, fails = ([], [], [])      # only the first few records are kept (thorough runs see millions of cases)
+    n_eval = 0
+    n_dis = 0
+    keys = set()
     driver_ok = core.DRIVER_EXE.exists()
-    if driver_ok:
-        try:
-            records, dis, fails = evaluate(prop, cases, stats)
-        except core.DriverError as e:
-            broken.append(f"model driver: {e}")
-            driver_ok = False
-    if not driver_ok:
-        # the model cannot run: the oracle alone still looks for failing inputs
-        for c in cases:
-            io = prop.run_impl(c)
-            o = prop.oracle(c, io)
-            if o:
-                fails.append({"case": c, "impl": io, "model": None, "violation": o})
+    stream = itertools.chain(corpus_cases, prop.cases(rng, tier))
+    while True:
+        chunk = list(itertools.islice(stream, 5000))
+        if not chunk:
+            break
+        if driver_ok:
+            try:
+                recs, d, f = evaluate(prop, chunk, stats)
+            except core.DriverError as e:
+                broken.append(f"model driver: {e}")
+                driver_ok = False
+                recs, d, f = [], [], []
+        if not driver_ok:
+            # the model cannot run: the oracle alone still looks for failing inputs
+            recs, d, f = [], [], []
+            for c in chunk:
+                try:
+                    io = prop.run_impl(c)
+                    o = prop.oracle(c, io)
+                except Exception:  # noqa
+                    continue
+                recs.append({"case": c, "impl": io, "model": None})
+                if o:
+                    f.append({"case": c, "impl": io, "model": None, "violation": o})
+        n_eval += len(recs)
+        for r in recs:
+            try:
+                k = prop.nontrivial_key(r["case"], r["impl"], r["model"])
+            except Exception:  # noqa
+                k = None
+            if k is not None:
+                keys.add(hashlib.md5(json.dumps(clean(k), sort_keys=True, default=str).encode()).digest())
+        if len(records) < 3:
+            records += recs[:3 - len(records)]
+        n_dis += len(d)
+        dis += d[:max(0, 50 - len(dis))]
+        fails += f[:max(0, 200 - len(fails))]
+        if n_dis >= 200 or len(fails) >= 2000:
+            break          # something is badly broken: no need to grind through the rest
+    cases_total = n_eval
     if dis:
-        broken.append(f"correspondence: {len(dis)} of {len(cases)} cases disagree, first: {dis[0]['disagreement']}")
+        broken.append(f"correspondence: {n_dis} of {cases_total} cases disagree, first: {dis[0]['disagreement']}")
 
     # --- 6. known findings ---------------------------------------------------------------------------
     new_fails, matched = known_filter(prop, pid, fails, known)
@@ -241,8 +300,11 @@ def run(pid, tier, seed, args, t0):
         for rep in range(20):
             for c in prop.cases(srng, "search"):
                 tried += 1
-                io = prop.run_impl(c)
-                o = prop.oracle(c, io)
+                try:
+                    io = prop.run_impl(c)
+                    o = prop.oracle(c, io)
+                except Exception:  # noqa
+                    continue
                 if o and not any(prop.matches_known(k, {"case": c, "impl": io, "violation": o})
                                  for k in known.get("findings", []) if k.get("property") == pid):
                     found = {"case": c, "impl": io, "violation": o}
@@ -260,11 +322,6 @@ def run(pid, tier, seed, args, t0):
                          "searched": tried, "build_log_tail": build_log[-3000:] if not build_ok else ""}
 
     # --- 8. evidence -----------------------------------------------------------------------------------
-    keys = set()
-    for r in records:
-        k = prop.nontrivial_key(r["case"], r["impl"], r["model"])
-        if k is not None:
-            keys.add(json.dumps(k, sort_keys=True, default=str))
     def brief(v, n=1500):
         t = json.dumps(clean(v), default=str)
         return clean(v) if len(t) <= n else t[:n] + "...(truncated)"
@@ -282,14 +339,15 @@ def run(pid, tier, seed, args, t0):
             "trusted_base": core.TRUSTED_BASE + list(getattr(prop, "TRUSTED", [])),
             "theorems": [n for (_, n) in theorems],
             "axioms_used": sorted(axioms_seen),
+            "leanchecker": leanchecker,
             "tie": getattr(prop, "TIE", "hand model + differential correspondence through the native model driver"),
             "translators": regen_notes,
-            "evaluations": len(records),
+            "evaluations": n_eval,
             "distinct_nontrivial": len(keys),
             "rule": prop.RULE,
             "samples": samples,
             "input_distribution": stats.as_dict(),
-            "disagreements_checked": len(dis),
+            "disagreements_checked": n_dis,
             "oracle_failures": len(fails),
             "known_findings_reproduced": sorted(matched.keys()),
             "partial": getattr(prop, "PARTIAL", ""),
@@ -303,7 +361,7 @@ def run(pid, tier, seed, args, t0):
 
     if violation is None:
         print(f"OK property={pid} tier={tier} seed={seed} theorems={discharged}/{len(theorems)} "
-              f"cases={len(records)} nontrivial={len(keys)} wall={ev['wall_s']}s")
+              f"cases={n_eval} nontrivial={len(keys)} wall={ev['wall_s']}s")
         return 0
     path = core.write_replay(pid, seed, {"property": pid, "tier": tier, "seed": seed, **violation,
                                          "how_to_rerun": f"./check {pid} --replay <this file>"})
